@@ -45,7 +45,9 @@ func (g *Gen) Digits(n int) string {
 // characters.
 var Texts = []string{"BL", "1.2.3", "sha-256", "TF-M_SHA256MemPreXIP", "ünïcödé ☃", "quote\"back\\slash", "tab\tnl\nnul\x00", "<&>", "  ", "a", "日本語", strings.Repeat("x", 300), "",
 	// text that LOOKS like a JSON / HTML escape but is literal content
-	`C:\updates\u0026x`, `[^\u003c]`, `\u003e`, `a\\u0026b`, `\n literal`, `\u2028`, `&amp;`, `%26`, `\"`, `\`, `\\`, "\u2028\u2029", `</script>`, "\ufeffbom", "\u007f"}
+	`C:\updates\u0026x`, `[^\u003c]`, `\u003e`, `a\\u0026b`, `\n literal`, `\u2028`, `&amp;`, `%26`, `\"`, `\`, `\\`, "\u2028\u2029", `</script>`, "\ufeffbom", "\u007f",
+	// text that equals a member name / a profile name
+	"psa-profile", "eat-profile", "psa-nonce", "PSA_IOT_PROFILE_1", "http://arm.com/psa/2.0.0", "null", "true", "{}", "[]"}
 
 func (g *Gen) Text() string { return Texts[g.R.Intn(len(Texts))] }
 func (g *Gen) NonEmptyText() string {
